@@ -143,10 +143,10 @@ theorem scan_layout (es : List Entry) : ∀ (A g : Bytes) (f : Bytes) (cur last 
       exact List.drop_left' (by simp)
     simp only [d1, d2, d3, leDec_leEnc8 hve.1, leDec_leEnc8 hve.2]
 
-/-- Reopening a disk that satisfies the invariant yields its entries and changes nothing. -/
-theorem openDisk_of_DInv {d : Disk} {es} (ver : Bytes) (h : DInv d.file es) :
-    openDisk ver d = .ok ({ disk := d, entries := es, cur := 40 + encLen es,
-                            mci := d.metaFile, metaSaved := true, ver := ver }, []) := by
+/-- `openCore` on a disk that satisfies the invariant yields its entries and writes nothing. -/
+theorem openCore_of_DInv {d : Disk} {es} (ver : Bytes) (p0 : List Prim) (h : DInv d.file es) :
+    openCore ver d p0 = .ok ({ disk := d, entries := es, cur := 40 + encLen es,
+                                  mci := d.metaFile, metaSaved := true, ver := ver }, p0) := by
   obtain ⟨hl, hv, hsz⟩ := h
   have hne : ¬ d.file.length = 0 := by omega
   have hns : ¬ d.file.length < INITIAL_SIZE := by simp [INITIAL_SIZE]; omega
@@ -154,7 +154,15 @@ theorem openDisk_of_DInv {d : Disk} {es} (ver : Bytes) (h : DInv d.file es) :
   obtain ⟨pre, g, hp, hf⟩ := hl
   have hs := scan_layout es (pre ++ leEnc 4 (40 + encLen es)) g d.file 40 (40 + encLen es)
     (by rw [hf]) (by simp [hp]) rfl hv.1 hv.2
-  simp only [openDisk, hne, if_false, hns, applyPrims, List.foldl_nil,
-    LAST_RECORD_OFFSET_OFFSET, hh, FIRST_RECORD_OFFSET, hs]
+  simp only [openCore, hne, if_false, hns, applyPrims, List.foldl_nil,
+    LAST_RECORD_OFFSET_OFFSET, hh, FIRST_RECORD_OFFSET, hs, List.append_nil]
+
+/-- Reopening a disk that satisfies the invariant yields its entries and changes nothing. -/
+theorem openDisk_of_DInv {d : Disk} {es} (ver : Bytes) (h : DInv d.file es) :
+    openDisk ver d = .ok ({ disk := d, entries := es, cur := 40 + encLen es,
+                            mci := d.metaFile, metaSaved := true, ver := ver }, []) := by
+  have hne : ¬ d.file.length = 0 := by have := h.2.2; omega
+  simp only [openDisk, hne, if_false]
+  exact openCore_of_DInv ver [] h
 
 end PSO.Journal
